@@ -259,6 +259,26 @@ def r18_2(ck):
     ck.require(ok, 'R18.2', v, rec[0] if rec else loop,
                'sub-dictionaries are descended into', None)
     p = ck.fn('path_timeseries_from_embedded_timeseries', 'core.emitter')
+    src = A.params_of(p.node)[0]
+    for test, where in conditions(p):
+        atoms = A.cond_atoms(test, True)
+        ok = False
+        # the only thing left out is the TOP-LEVEL 'time' entry
+        for c in ast.walk(p.node):
+            if isinstance(c, ast.comprehension) and test in c.ifs and \
+                    A.unparse(c.iter) == src + '.items()' and isinstance(
+                        c.target, ast.Tuple):
+                k = A.unparse(c.target.elts[0])
+                v = A.unparse(c.target.elts[1])
+                # dropping an EMPTY series loses no emitted value
+                ok = ('!=', "'time'", k) in atoms and atoms <= {
+                    ('!=', "'time'", k), ('truthy', v)}
+        ck.require(ok, 'R18.2', p, test,
+                   "only the top-level 'time' entry is left out of the "
+                   'flattening',
+                   'the path timeseries filters with `%s`: columns other '
+                   "than the top-level 'time' vector are dropped" %
+                   A.unparse(test), where)
     ok = any(A.call_name(c) == 'make_path_dict' for c in A.calls_in(p.node)) \
         and any(isinstance(s, ast.Assign) and isinstance(
             s.targets[0], ast.Subscript) and A.subscript_key(
